@@ -62,6 +62,15 @@ def main(argv=None):
     a = ap.parse_args(argv)
     tier = a.tier if a.tier in ('quick', 'thorough') else 'quick'
     pid = a.pid
+    # safety net: an interpretation that does not converge on some unforeseen loop shape must end as "analysis broken", not hang
+    import signal
+    def _too_long(signum, frame):
+        raise AnalysisBroken('the analysis did not finish within its time budget (an interpretation that does not converge?)')
+    try:
+        signal.signal(signal.SIGALRM, _too_long)
+        signal.alarm(int(os.environ.get('NSA_TIME_BUDGET', '1800' if tier == 'quick' else '7200')))
+    except (ValueError, AttributeError):
+        pass
     try:
         ctx = Ctx(a.repo, tier)
         rulemod = importlib.import_module('nsa.rules.' + pid)
